@@ -1289,6 +1289,8 @@ impl Tera {
         let mut state = State::new_with_chunk(&component_context, chunk);
         state.filters = Some(&self.filters);
         vm.interpret(&mut state, &mut write)?;
+        #[cfg(tera_verif)]
+        crate::verif::assert_state_clean(&state, "render_component_to");
 
         Ok(())
     }
